@@ -7,6 +7,7 @@ from ..driver import Hang
 from ..gen import steps as G
 from ..hist import MBOXES, Runner, norm_flags
 from ..run import CaseResult, open_ids
+from . import c01_conc as CONC
 
 ID = "C01"
 LEVEL = "exploration"
@@ -17,10 +18,10 @@ RULE = (
     "time in any cross-session order; 30% of cases start from the preamble 'two sessions selected, one expunges, the "
     "other holds undelivered EXPUNGEs'. Each session's byte stream is replayed into a view (EXISTS grows it, EXPUNGE n "
     "removes cell n) and every clause of C01 is evaluated on it. Non-trivial = some session received an EXISTS or "
-    "EXPUNGE caused by another session or by a delivery; distinct = distinct trace hash."
+    "EXPUNGE caused by another session or by a delivery (concurrent mode: two commands, one of them expunging, were in flight at the same time); distinct = distinct trace hash."
 )
 ASSUMPTIONS = [
-    "commands run one at a time (concurrent in-flight commands are C10's job)",
+    "in the history mode commands run one at a time; every fourth shard runs the concurrent mode (c01_conc.py): 2-3 sessions with commands in flight at the same time under a generated schedule, judged by the model-free view replay only",
     "the reference order of messages is the order of acknowledged additions; a delivery counts from the moment the file is in the folder",
     "a marker STORE is judged only when the session's view was in sync or every addressed number is explicit (no '*')",
 ]
@@ -42,7 +43,7 @@ def strategy(tier, shard, nshards):
         G.step_noop(n), G.step_noop(n), G.step_idle(n), G.step_deliver(), G.step_advance(),
     )
     mx = 22 if tier == "quick" else 34
-    return st.fixed_dictionaries(
+    seq = st.fixed_dictionaries(
         {
             "rseed": st.integers(0, 2**16),
             "profile": st.just("plain"),
@@ -51,6 +52,8 @@ def strategy(tier, shard, nshards):
             "steps": st.lists(step, min_size=8, max_size=mx),
         }
     )
+    # every fourth shard: commands of 2-3 sessions in flight at the same time (c01_conc.py)
+    return CONC.strategy() if shard % 4 == 3 else seq
 
 
 def budget(tier):
@@ -73,6 +76,8 @@ class C01Runner(Runner):
 
 
 def execute(trace) -> CaseResult:
+    if trace.get("kind") == "concurrent":
+        return CONC.execute(trace)
     h = C01Runner(trace)
 
     async def check_marker(st_name, out, sig):
